@@ -12,39 +12,68 @@ Section StepSim.
   Variable VR : list verr -> list verr -> Prop.
   Variable EP : url -> verr -> Prop.
   Variable EANY : Prop.
+  Variable EV : list verr -> Prop.
 
   Notation UR := (UR VR).
-  Notation RR := (RR VR EP EANY).
+  Notation RR := (RR VR EP EANY EV).
 
   Hypothesis H_EP : forall u t f e, snd (handleError c1 u t f) = Some e -> EP (fst (handleError c1 u t f)) e.
   Hypothesis H_he : forall u1 u2 t f, UR u1 u2 ->
     match snd (handleError c1 u1 t f), snd (handleError c2 u2 t f) with
     | None, None => VR (u_verrs (fst (handleError c1 u1 t f))) (u_verrs (fst (handleError c2 u2 t f)))
     | Some _, Some _ => True
-    | Some _, None => EANY
+    | Some _, None => EANY /\ EV (u_verrs (fst (handleError c2 u2 t f)))
     | None, Some _ => False
     end.
+  Hypothesis H_ev : forall u t f, EV (u_verrs u) -> EV (u_verrs (fst (handleError c2 u t f))).
 
   Definition MR (m1 m2 : mstate) : Prop :=
     m_state m1 = m_state m2 /\ m_ptr m1 = m_ptr m2 /\ m_eof m1 = m_eof m2 /\ m_buf m1 = m_buf m2 /\
     m_at m1 = m_at m2 /\ m_br m1 = m_br m2 /\ m_pw m1 = m_pw m2 /\ UR (m_url m1) (m_url m2).
+
+  (* EV holds of whatever record the outcome carries *)
+  Definition esc_out (o : outcome) : Prop :=
+    match o with
+    | Cont m => EV (u_verrs (m_url m))
+    | RetUrl u => EV (u_verrs u)
+    | RetNilNil u => EV (u_verrs u)
+    | RetErr _ _ => True
+    | Panic => True
+    end.
 
   Definition OR (o1 o2 : outcome) : Prop :=
     match o1 with
     | Cont m1 => match o2 with Cont m2 => MR m1 m2 | _ => False end
     | RetUrl u1 => match o2 with RetUrl u2 => UR u1 u2 | _ => False end
     | RetErr u1 e1 =>
-        EP u1 e1 /\ (EANY \/ match o2 with RetErr u2 e2 => eqv u1 u2 /\ e1 = e2 | _ => False end)
+        EP u1 e1 /\
+        ((EANY /\ esc_out o2) \/ match o2 with RetErr u2 e2 => eqv u1 u2 /\ e1 = e2 | _ => False end)
     | RetNilNil u1 => match o2 with RetNilNil u2 => UR u1 u2 | _ => False end
     | Panic => o2 = Panic
     end.
 
+  Lemma mherr_esc u t f (k : url -> outcome) :
+    EV (u_verrs u) -> (forall u', EV (u_verrs u') -> esc_out (k u')) -> esc_out (mherr c2 u t f k).
+  Proof.
+    intros HE Hk. unfold mherr. pose proof (H_ev _ t f HE) as H.
+    destruct (handleError c2 u t f) as [u' [e|]]; cbn in *; [exact I|apply Hk, H].
+  Qed.
+
+  Lemma parseHost_k_esc u buf ns (k : url -> str -> outcome) :
+    EV (u_verrs u) -> (forall u' h, EV (u_verrs u') -> esc_out (k u' h)) ->
+    esc_out (match parseHost idna c2 u buf ns with Er u e => RetErr u e | Ok u host => k u host end).
+  Proof.
+    intros HE Hk. pose proof (@parseHost_esc idna c2 EV H_ev u buf ns HE) as H.
+    destruct (parseHost idna c2 u buf ns) as [v h|v e]; [apply Hk, H|exact I].
+  Qed.
+
   Lemma mherr_rel u1 u2 t f (k1 k2 : url -> outcome) :
     UR u1 u2 ->
     (forall u1' u2', UR u1' u2' -> OR (k1 u1') (k2 u2')) ->
+    (forall u2', EV (u_verrs u2') -> esc_out (k2 u2')) ->
     OR (mherr c1 u1 t f k1) (mherr c2 u2 t f k2).
   Proof.
-    intros HU Hk. unfold mherr.
+    intros HU Hk Hesc. unfold mherr.
     pose proof (H_he t f HU) as Hh.
     pose proof (@H_EP u1 t f) as He.
     pose proof (handleError_eqv c1 c2 t f (UR_eqv HU)) as Hq.
@@ -56,7 +85,7 @@ Section StepSim.
     - split; [apply He; reflexivity|]. right. split; [exact Hq|].
       destruct (f || c_fail c1), (f || c_fail c2); try discriminate.
       inversion S1; inversion S2; subst. apply mkerr_eqv, (UR_eqv HU).
-    - split; [apply He; reflexivity|]. left; exact Hh.
+    - split; [apply He; reflexivity|]. left. split; [apply Hh|apply Hesc, Hh].
     - contradiction.
     - apply Hk. split; assumption.
   Qed.
@@ -74,17 +103,20 @@ Section StepSim.
   Lemma parseHost_k_rel u1 u2 buf ns (k1 k2 : url -> str -> outcome) :
     UR u1 u2 ->
     (forall u1' u2' h, UR u1' u2' -> OR (k1 u1' h) (k2 u2' h)) ->
+    (forall u2' h, EV (u_verrs u2') -> esc_out (k2 u2' h)) ->
     OR (match parseHost idna c1 u1 buf ns with Er u e => RetErr u e | Ok u host => k1 u host end)
        (match parseHost idna c2 u2 buf ns with Er u e => RetErr u e | Ok u host => k2 u host end).
   Proof.
-    intros HU Hk.
-    pose proof (@parseHost_rel idna c1 c2 Hag VR EP EANY H_EP H_he u1 u2 buf ns HU) as HR.
-    destruct (parseHost idna c1 u1 buf ns) as [v1 h1|v1 e1], (parseHost idna c2 u2 buf ns) as [v2 h2|v2 e2];
-      cbn in HR.
-    - destruct HR as [HV <-]. apply Hk, HV.
-    - contradiction.
-    - destruct HR as [HE [HA|[]]]. split; [exact HE|left; exact HA].
-    - exact HR.
+    intros HU Hk Hesc.
+    pose proof (@parseHost_rel idna c1 c2 Hag VR EP EANY EV H_EP H_he H_ev u1 u2 buf ns HU) as HR.
+    destruct (parseHost idna c1 u1 buf ns) as [v1 h1|v1 e1].
+    - destruct (parseHost idna c2 u2 buf ns) as [v2 h2|v2 e2]; cbn in HR; [|contradiction].
+      destruct HR as [HV <-]. apply Hk, HV.
+    - destruct HR as [HE [[HA HS]|HX]].
+      + split; [exact HE|]. left. split; [exact HA|].
+        destruct (parseHost idna c2 u2 buf ns) as [v2 h2|v2 e2]; [apply Hesc, HS|exact I].
+      + destruct (parseHost idna c2 u2 buf ns) as [v2 h2|v2 e2]; [contradiction|].
+        split; [exact HE|right; exact HX].
   Qed.
 
   (* building a related pair of urls from explicit records *)
@@ -109,6 +141,11 @@ Section StepSim.
        set_query set_fragment set_sp set_verrs addSegment copy_base_auth IsSpecialScheme isSpecialSchemeAndBackslash
        cleanDefaultPort
        mk m_state m_ptr m_eof m_buf m_at m_br m_pw m_url].
+
+  Ltac url_fields_in H :=
+    cbv beta iota zeta delta
+      [u_input u_scheme u_username u_password u_host u_port u_decodedPort u_path u_opaque u_query
+       u_fragment u_verrs u_sp] in H.
 
   Ltac agrw :=
     rewrite ?(ag_lax Hag), ?(ag_collapse Hag), ?(ag_acceptInvalid Hag), ?(ag_skipDrive Hag),
@@ -138,15 +175,50 @@ Section StepSim.
             | |- context [match ?X with _ => _ end] => destruct X
             end; url_fields; leaf ].
 
+  Ltac eleaf0 :=
+    solve [ assumption | exact I | cbv [esc_out]; url_fields; assumption ].
+
+  Ltac eleaf :=
+    first [ eleaf0
+          | match goal with
+            | |- context [match (if ?X then _ else _) with _ => _ end] => destruct X
+            | |- context [if ?X then _ else _] => destruct X
+            | |- context [match ?X with Some _ => _ | None => _ end] => destruct X
+            | |- context [match ?X with _ => _ end] => destruct X
+            end; url_fields; eleaf ].
+
+  Ltac intro_EV :=
+    let u := fresh "w" in let H := fresh "HW" in
+    intros u H; destruct u; url_fields_in H; url_fields.
+  Ltac intro_EV2 :=
+    let u := fresh "w" in let h := fresh "h" in let H := fresh "HW" in
+    intros u h H; destruct u; url_fields_in H; url_fields.
+
+  Ltac esc_step :=
+    match goal with
+    | |- esc_out (mherr _ _ _ _ _) => apply mherr_esc; [url_fields; assumption | intro_EV]
+    | |- esc_out (match parseHost _ _ _ _ _ with _ => _ end) =>
+        apply parseHost_k_esc; [url_fields; assumption | intro_EV2]
+    | |- esc_out ((if ?b then _ else _) _) => destruct b; url_fields
+    | |- esc_out (match ?X with _ => _ end) => destruct X; url_fields
+    | |- esc_out (Cont _) => eleaf
+    | |- esc_out (RetUrl _) => eleaf
+    | |- esc_out (RetNilNil _) => eleaf
+    | |- esc_out (RetErr _ _) => exact I
+    | |- esc_out Panic => exact I
+    end.
+
   Ltac or_step :=
     match goal with
     | |- OR (mherr _ _ _ true _) (mherr _ _ _ true _) => apply mherr_fatal_rel; reflexivity
     | |- OR (mherr _ _ _ _ _) (mherr _ _ _ _ _) =>
         apply mherr_rel; [apply UR_build; assumption
-                         | let H := fresh "HU" in intros ? ? H; split_UR H; url_fields; agrw]
+                         | let H := fresh "HU" in intros ? ? H; split_UR H; url_fields; agrw
+                         | intro_EV; repeat esc_step]
     | |- OR (match parseHost _ _ _ _ _ with _ => _ end) (match parseHost _ _ _ _ _ with _ => _ end) =>
         apply parseHost_k_rel; [apply UR_build; assumption
-                               | let H := fresh "HU" in intros ? ? ? H; split_UR H; url_fields; agrw]
+                               | let H := fresh "HU" in intros ? ? ? H; split_UR H; url_fields; agrw
+                               | intro_EV2; repeat esc_step]
     | |- OR ((if ?b then _ else _) _) ((if ?b then _ else _) _) => destruct b; url_fields; agrw
     | |- OR (match ?X with _ => _ end) (match ?X with _ => _ end) => destruct X; url_fields; agrw
     | |- OR (Cont _) (Cont _) => leaf
